@@ -44,7 +44,7 @@ def HASHSEEDS(seed):
 
 CONSUMER_WEIGHTS = [(3, "compute_gi"), (2, "compute_tuple"), (2, "compute_dict"), (2, "for_iter"), (2, "mask_sum"),
                     (2, "pileup_data"), (3, "two_tuple"), (2, "pileup_index"), (2, "pileup_index_memory"), (2, "pileup_index_other_genome_order"), (2, "track_data"), (2, "track_sum"),
-                    (3, "ms_exhaust"), (3, "forbes"), (2, "jaccard"), (2, "ms_write"), (2, "left_join"),
+                    (3, "ms_exhaust"), (2, "ms_with_dict"), (3, "forbes"), (2, "jaccard"), (2, "ms_write"), (2, "left_join"),
                     (1, "caller_zip"), (1, "early_break")]
 SCHEDS = [(3, "fixed"), (1, "sweep")]
 SWEEP_MAX_ENTRIES = {"quick": 7, "thorough": 9}
